@@ -3,7 +3,7 @@ from . import ctxsim
 from .core import Outcome
 
 NAME = 'thrsim'
-TIMEOUT = 20.0
+TIMEOUT = 60.0
 SHRINK_LINES = False
 
 
@@ -12,6 +12,20 @@ def gen_plan(rng, tier, config, opts):
     k = rng.choice([2, 2, 3, 3, 4])
     same = rng.chance(0.4)
     curve = rng.choice(ctxsim.CURVES)
+    lockstep = rng.chance(0.15)
+    if lockstep:
+        # two or three threads run the *same* short script of protocol work in slices of a few basic blocks each,
+        # so that they sit in the same functions at the same time: a static scratch buffer or cached value shared
+        # between threads is overwritten between its write and its use
+        k = rng.choice([2, 2, 3])
+        items = [rng.choice(['W_PSI', 'W_PSI', 'W_HASH %d' % rng.below(1000), 'W_SSS', 'W_ECIES', 'W_ECDSA',
+                             'W_MAP m%d' % rng.below(1000), 'W_MUL ' + rng.bytes(20).hex()]) for _ in range(rng.randint(2, 4))]
+        for t in range(k):
+            steps = ['RESEED ' + rng.bytes(8).hex(), 'EPSET ' + (curve if curve != 'BN_P256' else 'NIST_P256')] + items + ['CLRERR', 'PROBE 1']
+            lines += ['THREAD %d %s' % (t, s) for s in steps]
+        lines.append('SEG 0 %d' % rng.randint(1, 2000))
+        lines.append('RR %d %d %d' % (rng.choice([100000, 250000, 500000]), rng.choice([1, 2, 3, 6]), rng.below(1 << 30)))
+        return '\n'.join(lines) + '\n'
     for t in range(k):
         if same:
             # all threads work on the same curve with the same kinds of calls at the same time: a buffer,
